@@ -1,24 +1,11 @@
 (* Facts about Ast/Transform.v, all by structural induction over the nested tree
    (unbounded depth): what the rewrite adds is only `profile` decorators and
-   registration statements. *)
+   registration statements, placed directly behind their import, carrying its line. *)
+From Coq Require Import Sorting.Sorted.
 From LP Require Import Prelude.Py Prelude.PyLemmas Gen.RelImport
      Ast.AstLite Ast.AuxStr Ast.Select Ast.Transform.
 
 (* ---- small list facts ---------------------------------------------------------------- *)
-Lemma fm_insert_nil {A B} (g : A -> list B) i x (l : list A) :
-  g x = [] -> flat_map g (insert_at i x l) = flat_map g l.
-Proof.
-  intros H. unfold insert_at. rewrite flat_map_app. cbn [flat_map]. rewrite H. cbn [app].
-  rewrite <- flat_map_app, firstn_skipn. reflexivity.
-Qed.
-
-Lemma fm_insert_in {A B} (g : A -> list B) i x (l : list A) y :
-  In y (flat_map g (insert_at i x l)) <-> In y (g x) \/ In y (flat_map g l).
-Proof.
-  unfold insert_at. rewrite <- (firstn_skipn (Z.to_nat i) l) at 3.
-  rewrite !flat_map_app. cbn [flat_map]. rewrite !in_app_iff. tauto.
-Qed.
-
 Definition is_profcall (s : stmt) : bool := match s with ProfCall _ _ => true | _ => false end.
 
 Lemma all_prof_fm {B} (g : stmt -> list B) (l : list stmt) :
@@ -29,32 +16,289 @@ Proof.
   rewrite Hg, IH by exact Hl. reflexivity.
 Qed.
 
+Definition calls (loc : option Z) (names : list string) : list stmt :=
+  map (fun n => ProfCall n loc) names.
+
+Lemma calls_all_prof loc names : forallb is_profcall (calls loc names) = true.
+Proof. induction names as [|n r IH]; [reflexivity|exact IH]. Qed.
+
+Lemma calls_fm {B} (g : stmt -> list B) loc names :
+  (forall n loc, g (ProfCall n loc) = []) -> flat_map g (calls loc names) = [].
+Proof. intros Hg. apply all_prof_fm; [exact Hg|apply calls_all_prof]. Qed.
+
+Lemma regs_calls loc names : regs (calls loc names) = names.
+Proof. unfold regs, calls. induction names as [|n r IH]; [reflexivity|]. cbn. rewrite IH. reflexivity. Qed.
+
+(* ---- sorted(list(d), reverse=True) ----------------------------------------------------- *)
+Lemma insert_desc_in k l x : In x (insert_desc k l) <-> x = k \/ In x l.
+Proof.
+  induction l as [|y l IH]; cbn [insert_desc In]; [intuition|].
+  destruct (y <? k); cbn [In]; [intuition|]. rewrite IH. intuition.
+Qed.
+
+Lemma sort_desc_in l x : In x (sort_desc l) <-> In x l.
+Proof.
+  induction l as [|y l IH]; cbn [sort_desc fold_right In]; [tauto|].
+  change (fold_right insert_desc [] l) with (sort_desc l). rewrite insert_desc_in, IH. intuition.
+Qed.
+
+Lemma insert_desc_sorted k l :
+  ~ In k l -> StronglySorted Z.gt l -> StronglySorted Z.gt (insert_desc k l).
+Proof.
+  induction l as [|y l IH]; intros Hn Hs; cbn [insert_desc].
+  - constructor; [constructor|constructor].
+  - inversion Hs as [|? ? Hs' Hall]; subst. destruct (y <? k) eqn:E.
+    + constructor; [exact Hs|]. constructor; [lia|].
+      eapply Forall_impl; [|exact Hall]. intros a Ha. cbn in Ha. lia.
+    + constructor.
+      * apply IH; [intros Hin; apply Hn; right; exact Hin|exact Hs'].
+      * apply Forall_forall. intros x Hx. apply insert_desc_in in Hx as [->|Hx].
+        -- assert (y <> k) by (intros ->; apply Hn; left; reflexivity). lia.
+        -- rewrite Forall_forall in Hall. apply Hall. exact Hx.
+Qed.
+
+Lemma sort_desc_sorted l : NoDup l -> StronglySorted Z.gt (sort_desc l).
+Proof.
+  induction l as [|y l IH]; intros Hnd; cbn [sort_desc fold_right]; [constructor|].
+  change (fold_right insert_desc [] l) with (sort_desc l).
+  inversion Hnd as [|? ? Hy Hl]; subst. apply insert_desc_sorted; [|apply IH; exact Hl].
+  rewrite sort_desc_in. exact Hy.
+Qed.
+
+(* ---- consecutive inserts ----------------------------------------------------------------- *)
+Lemma insert_at_length {A} i (x : A) l : length (insert_at i x l) = S (length l).
+Proof.
+  unfold insert_at. rewrite app_length. cbn [length]. rewrite firstn_length, skipn_length. lia.
+Qed.
+
+Lemma split_at {A} (a : list A) x c n :
+  length a = n ->
+  firstn (S n) (a ++ x :: c) = a ++ [x] /\ skipn (S n) (a ++ x :: c) = c /\ firstn n (a ++ x :: c) = a
+  /\ skipn n (a ++ x :: c) = x :: c.
+Proof.
+  intros <-. repeat split.
+  - rewrite firstn_app. replace (S (length a) - length a)%nat with 1%nat by lia.
+    rewrite firstn_all2 by lia. reflexivity.
+  - rewrite skipn_app. replace (S (length a) - length a)%nat with 1%nat by lia.
+    rewrite skipn_all2 by lia. reflexivity.
+  - rewrite firstn_app, Nat.sub_diag, firstn_all. cbn [firstn]. apply app_nil_r.
+  - rewrite skipn_app, Nat.sub_diag, skipn_all. reflexivity.
+Qed.
+
+Lemma insert_at_split {A} i (x : A) l :
+  (Z.to_nat i <= length l)%nat ->
+  firstn (S (Z.to_nat i)) (insert_at i x l) = firstn (Z.to_nat i) l ++ [x]
+  /\ skipn (S (Z.to_nat i)) (insert_at i x l) = skipn (Z.to_nat i) l.
+Proof.
+  intros H. unfold insert_at.
+  destruct (split_at (firstn (Z.to_nat i) l) x (skipn (Z.to_nat i) l) (Z.to_nat i)) as [H1 [H2 _]].
+  - apply firstn_length_le. exact H.
+  - split; assumption.
+Qed.
+
+Lemma insert_names_fst loc names : forall i st,
+  0 <= i -> (Z.to_nat i <= length (fst st))%nat ->
+  fst (insert_names i loc names st)
+  = firstn (Z.to_nat i) (fst st) ++ calls loc names ++ skipn (Z.to_nat i) (fst st).
+Proof.
+  induction names as [|n r IH]; intros i st Hi Hl; cbn [insert_names calls map app].
+  - rewrite firstn_skipn. reflexivity.
+  - rewrite IH; cbn [fst]; [|lia|rewrite insert_at_length; lia].
+    replace (Z.to_nat (i + 1)) with (S (Z.to_nat i)) by lia.
+    destruct (insert_at_split i (ProfCall n loc) (fst st) Hl) as [H1 H2]. rewrite H1, H2.
+    rewrite <- app_assoc. reflexivity.
+Qed.
+
+(* ---- expand ---------------------------------------------------------------------------- *)
+Lemma expand_app f : forall a i b,
+  expand f i (a ++ b) = expand f i a ++ expand f (i + Z.of_nat (length a)) b.
+Proof.
+  induction a as [|s a IH]; intros i b; cbn [app expand length].
+  - rewrite Z.add_0_r. reflexivity.
+  - rewrite IH. replace (i + 1 + Z.of_nat (length a)) with (i + Z.of_nat (S (length a))) by lia.
+    rewrite <- app_assoc. reflexivity.
+Qed.
+
+Lemma expand_ext f g : forall a i,
+  (forall j, i <= j < i + Z.of_nat (length a) -> f j = g j) -> expand f i a = expand g i a.
+Proof.
+  induction a as [|s a IH]; intros i H; cbn [expand]; [reflexivity|].
+  rewrite (H i) by (cbn [length]; lia). rewrite (IH (i + 1)); [reflexivity|].
+  intros j Hj. apply H. cbn [length]. lia.
+Qed.
+
+Lemma expand_id f : forall a i,
+  (forall j, i <= j < i + Z.of_nat (length a) -> f j = []) -> expand f i a = a.
+Proof.
+  induction a as [|s a IH]; intros i H; cbn [expand]; [reflexivity|].
+  rewrite (H i) by (cbn [length]; lia). cbn [map app]. rewrite (IH (i + 1)); [reflexivity|].
+  intros j Hj. apply H. cbn [length]. lia.
+Qed.
+
+Definition restrict (d : dict) (K : list Z) (j : Z) : list string :=
+  if existsb (Z.eqb j) K then dict_names d j else [].
+
+Lemma below_not_in k ks j :
+  Forall (fun x => k > x) ks -> k <= j -> existsb (Z.eqb j) ks = false.
+Proof.
+  intros H Hj. induction H as [|x ks Hx _ IH]; [reflexivity|].
+  cbn [existsb]. rewrite IH. destruct (Z.eqb_spec j x); [lia|reflexivity].
+Qed.
+
+Lemma dict_get_none_names d k : dict_get d k = None -> dict_names d k = [].
+Proof. unfold dict_names. intros ->. reflexivity. Qed.
+
+Lemma fold_expand d : forall ks, StronglySorted Z.gt ks ->
+  forall st, fst (fold_left (insert_step d) ks st) = expand (restrict d ks) 0 (fst st).
+Proof.
+  induction ks as [|k ks IH]; intros Hs st.
+  - cbn [fold_left]. symmetry. apply expand_id. intros j _. reflexivity.
+  - inversion Hs as [|? ? Hs' Hall]; subst. cbn [fold_left]. rewrite IH by exact Hs'.
+    assert (Hk_notin : existsb (Z.eqb k) ks = false) by (apply (below_not_in k ks k Hall); lia).
+    unfold insert_step. destruct (dict_get d k) as [names|] eqn:Eg.
+    2:{ apply expand_ext. intros j _. unfold restrict. cbn [existsb].
+        destruct (Z.eqb_spec j k) as [->|]; [|reflexivity]. cbn [orb].
+        rewrite (dict_get_none_names d k Eg). destruct (existsb (Z.eqb k) ks); reflexivity. }
+    destruct (k <? 0) eqn:Ek.
+    { apply expand_ext. intros j Hj. unfold restrict. cbn [existsb].
+      destruct (Z.eqb_spec j k); [lia|reflexivity]. }
+    destruct (nth_error (fst st) (Z.to_nat k)) as [s|] eqn:En.
+    2:{ apply nth_error_None in En. apply expand_ext. intros j Hj. unfold restrict. cbn [existsb].
+        destruct (Z.eqb_spec j k); [lia|reflexivity]. }
+    destruct (nth_error_split (fst st) (Z.to_nat k) En) as [a [c [Eb La]]].
+    assert (Hka : Z.of_nat (length a) = k) by lia.
+    destruct (split_at a s c (Z.to_nat k) La) as [F1 [F2 _]].
+    rewrite insert_names_fst; [|lia|rewrite Eb, app_length; cbn [length]; lia].
+    replace (Z.to_nat (k + 1)) with (S (Z.to_nat k)) by lia.
+    rewrite Eb, F1, F2.
+    (* left: what the remaining (smaller) keys do to the list with the calls inserted *)
+    rewrite (expand_app (restrict d ks) (a ++ [s]) 0 (calls (stmt_line s) names ++ c)).
+    rewrite (expand_app (restrict d ks) a 0 [s]).
+    rewrite (expand_app (restrict d (k :: ks)) a 0 (s :: c)).
+    rewrite app_length. cbn [expand length]. rewrite app_nil_r.
+    replace (0 + Z.of_nat (length a + 1)) with (k + 1) by lia.
+    rewrite !Z.add_0_l, Hka.
+    assert (R1 : restrict d ks k = []) by (unfold restrict; rewrite Hk_notin; reflexivity).
+    rewrite R1. cbn [map app].
+    rewrite (expand_id (restrict d ks) (calls (stmt_line s) names ++ c)).
+    2:{ intros j Hj. unfold restrict. rewrite (below_not_in k ks j Hall) by (rewrite app_length in Hj; lia). reflexivity. }
+    (* right: the interleaving for all keys *)
+    assert (R2 : restrict d (k :: ks) k = names).
+    { unfold restrict. cbn [existsb]. rewrite Z.eqb_refl. cbn [orb]. apply dict_get_names. exact Eg. }
+    rewrite R2.
+    rewrite (expand_id (restrict d (k :: ks)) c).
+    2:{ intros j Hj. unfold restrict. cbn [existsb]. destruct (Z.eqb_spec j k); [lia|].
+        rewrite (below_not_in k ks j Hall) by lia. reflexivity. }
+    rewrite (expand_ext (restrict d ks) (restrict d (k :: ks)) a 0).
+    2:{ intros j Hj. unfold restrict. cbn [existsb]. destruct (Z.eqb_spec j k); [lia|reflexivity]. }
+    rewrite <- app_assoc. reflexivity.
+Qed.
+
+Lemma dict_get_notin d k : ~ In k (map fst d) -> dict_get d k = None.
+Proof.
+  induction d as [|[k0 vs] r IH]; cbn [dict_get map fst In]; intros H; [reflexivity|].
+  destruct (Z.eqb_spec k0 k) as [->|]; [exfalso; apply H; left; reflexivity|].
+  apply IH. intros Hin. apply H. right. exact Hin.
+Qed.
+
+(* the descending insertion is the interleaving *)
+Theorem insert_regs_expand d body :
+  NoDup (map fst d) -> fst (insert_regs d body) = expand (dict_names d) 0 body.
+Proof.
+  intros Hnd. unfold insert_regs. rewrite fold_expand by (apply sort_desc_sorted; exact Hnd).
+  cbn [fst]. apply expand_ext. intros j _. unfold restrict.
+  destruct (existsb (Z.eqb j) (sort_desc (map fst d))) eqn:E; [reflexivity|].
+  symmetry. apply dict_get_none_names. apply dict_get_notin. intros Hin.
+  assert (Hex : existsb (Z.eqb j) (sort_desc (map fst d)) = true).
+  { apply existsb_exists. exists j. split; [apply sort_desc_in; exact Hin|apply Z.eqb_refl]. }
+  congruence.
+Qed.
+
+(* an observer that ignores registration statements does not see the insertion *)
+Lemma expand_fm {B} (g : stmt -> list B) f :
+  (forall n loc, g (ProfCall n loc) = []) -> forall b i, flat_map g (expand f i b) = flat_map g b.
+Proof.
+  intros Hg. induction b as [|s r IH]; intros i; cbn [expand flat_map]; [reflexivity|].
+  rewrite flat_map_app. change (map (fun n => ProfCall n (stmt_line s)) (f i)) with (calls (stmt_line s) (f i)).
+  rewrite (calls_fm g _ _ Hg), IH. reflexivity.
+Qed.
+
+Lemma regs_app a b : regs (a ++ b) = regs a ++ regs b.
+Proof. unfold regs. apply flat_map_app. Qed.
+
+Lemma regs_cons s r : regs (s :: r) = regs_stmt s ++ regs r.
+Proof. reflexivity. Qed.
+
+Lemma regs_expand f : forall b i y,
+  In y (regs (expand f i b))
+  <-> (exists j, i <= j < i + Z.of_nat (length b) /\ In y (f j)) \/ In y (regs b).
+Proof.
+  induction b as [|s r IH]; intros i y.
+  - cbn. split; [tauto|]. intros [[j [Hj _]]|[]]. lia.
+  - cbn [expand]. change (map (fun n => ProfCall n (stmt_line s)) (f i)) with (calls (stmt_line s) (f i)).
+    rewrite !regs_cons, regs_app, regs_calls, !in_app_iff, IH. cbn [length]. split.
+    + intros [H|[H|[[j [Hj Hy]]|H]]].
+      * right. left. exact H.
+      * left. exists i. split; [lia|exact H].
+      * left. exists j. split; [lia|exact Hy].
+      * right. right. exact H.
+    + intros [[j [Hj Hy]]|[H|H]].
+      * destruct (Z.eq_dec j i) as [->|Hne]; [right; left; exact Hy|].
+        right. right. left. exists j. split; [lia|exact Hy].
+      * left. exact H.
+      * right. right. right. exact H.
+Qed.
+
 (* ---- the registration statements _visit_import appends -------------------------------- *)
-Lemma visit_names_all_prof ns : forall acc pi,
+Lemma visit_names_all_prof loc ns : forall acc pi,
   forallb is_profcall acc = true ->
-  forallb is_profcall (fst (fold_left visit_name ns (acc, pi))) = true.
+  forallb is_profcall (fst (fold_left (visit_name loc) ns (acc, pi))) = true.
 Proof.
   induction ns as [|a ns IH]; intros acc pi H; cbn [fold_left]; [exact H|].
-  unfold visit_name at 2. cbn [fst snd]. destruct (str_in (node_name a) pi); [apply IH; exact H|].
+  unfold visit_name at 2. cbn [fst snd]. destruct (is_star a); [apply IH; exact H|].
+  destruct (str_in (node_name a) pi); [apply IH; exact H|].
   apply IH. rewrite forallb_app, H. reflexivity.
 Qed.
 
-Lemma visit_import_names_all_prof pi ns :
-  forallb is_profcall (fst (visit_import_names pi ns)) = true.
+Lemma visit_import_names_all_prof loc pi ns :
+  forallb is_profcall (fst (visit_import_names loc pi ns)) = true.
 Proof. apply visit_names_all_prof. reflexivity. Qed.
 
-(* names registered by _visit_import are names bound by that import *)
-Lemma visit_names_regs ns : forall acc pi y,
-  In y (top_regs (fst (fold_left visit_name ns (acc, pi)))) ->
-  In y (top_regs acc) \/ In y (map node_name ns).
+(* they carry the given location and name non-star aliases of that import *)
+Definition is_call_at (loc : option Z) (ok : string -> Prop) (s : stmt) : Prop :=
+  match s with ProfCall n l => l = loc /\ ok n | _ => False end.
+
+Definition alias_name_of (ns : list alias) (n : string) : Prop :=
+  exists a, In a ns /\ is_star a = false /\ n = node_name a.
+
+Lemma visit_names_shape loc ns : forall acc pi,
+  Forall (is_call_at loc (alias_name_of ns)) acc ->
+  Forall (is_call_at loc (alias_name_of ns)) (fst (fold_left (visit_name loc) ns (acc, pi))).
 Proof.
-  induction ns as [|a ns IH]; intros acc pi y; cbn [fold_left map In]; [auto|].
-  unfold visit_name at 2. cbn [fst snd]. destruct (str_in (node_name a) pi).
-  - intros H. apply IH in H as [H|H]; auto.
-  - intros H. apply IH in H as [H|H]; [|auto].
-    unfold top_regs in H. rewrite flat_map_app, in_app_iff in H. cbn in H.
-    destruct H as [H|[H|[]]]; auto.
+  assert (Hweak : forall a ns0 l,
+            Forall (is_call_at loc (alias_name_of ns0)) l ->
+            Forall (is_call_at loc (alias_name_of (a :: ns0))) l).
+  { intros a ns0 l. apply Forall_impl. intros s. destruct s; cbn; try tauto.
+    intros [E [a0 [H1 H2]]]. split; [exact E|]. exists a0. split; [right; exact H1|exact H2]. }
+  (* generalise: the accumulator may name aliases of a longer list *)
+  assert (G : forall ns0 ns1 acc pi,
+            (forall n, alias_name_of ns0 n -> alias_name_of ns1 n) ->
+            Forall (is_call_at loc (alias_name_of ns1)) acc ->
+            Forall (is_call_at loc (alias_name_of ns1)) (fst (fold_left (visit_name loc) ns0 (acc, pi)))).
+  { induction ns0 as [|a ns0 IH]; intros ns1 acc pi Hsub Hacc; cbn [fold_left]; [exact Hacc|].
+    assert (Hsub' : forall n, alias_name_of ns0 n -> alias_name_of ns1 n).
+    { intros n [a0 [H1 H2]]. apply Hsub. exists a0. split; [right; exact H1|exact H2]. }
+    unfold visit_name at 2. cbn [fst snd]. destruct (is_star a) eqn:Es; [apply IH; assumption|].
+    destruct (str_in (node_name a) pi); [apply IH; assumption|].
+    apply IH; [exact Hsub'|]. apply Forall_app. split; [exact Hacc|].
+    constructor; [|constructor]. cbn. split; [reflexivity|].
+    apply Hsub. exists a. split; [left; reflexivity|split; [exact Es|reflexivity]]. }
+  intros acc pi Hacc. apply (G ns ns acc pi); [tauto|exact Hacc].
 Qed.
+
+Lemma visit_import_names_shape loc pi ns :
+  Forall (is_call_at loc (alias_name_of ns)) (fst (visit_import_names loc pi ns)).
+Proof. apply visit_names_shape. constructor. Qed.
 
 (* ---- generic shape of a proof about visit: an observer that ignores what is added ------ *)
 Section VisitObserver.
@@ -105,12 +349,13 @@ Section VisitObserver.
       destruct (smap (visit_stmt imports) pi b) as [b' pi']. cbn [fst flat_map] in *.
       rewrite app_nil_r. apply h_class. exact Hb.
     - intros ns l pi. cbn [visit_stmt]. destruct imports; [|cbn; rewrite app_nil_r; apply h_leaf_import].
-      pose proof (visit_import_names_all_prof pi ns) as Hp.
-      destruct (visit_import_names pi ns) as [extra pi']. cbn [fst flat_map] in *.
+      pose proof (visit_import_names_all_prof (Some l) pi ns) as Hp.
+      destruct (visit_import_names (Some l) pi ns) as [extra pi']. cbn [fst flat_map] in *.
       rewrite (all_prof_fm g extra g_prof Hp), app_nil_r. apply h_leaf_import.
-    - intros m ns lv l pi. cbn [visit_stmt]. destruct imports; [|cbn; rewrite app_nil_r; apply h_leaf_from].
-      pose proof (visit_import_names_all_prof pi ns) as Hp.
-      destruct (visit_import_names pi ns) as [extra pi']. cbn [fst flat_map] in *.
+    - intros m ns lv l pi. cbn [visit_stmt].
+      destruct (imports && negb (from_future m)); [|cbn; rewrite app_nil_r; apply h_leaf_from].
+      pose proof (visit_import_names_all_prof (Some l) pi ns) as Hp.
+      destruct (visit_import_names (Some l) pi ns) as [extra pi']. cbn [fst flat_map] in *.
       rewrite (all_prof_fm g extra g_prof Hp), app_nil_r. apply h_leaf_from.
     - intros i bs l Hbs pi. cbn [visit_stmt]. specialize (Hbs pi). unfold visit_bodies in Hbs.
       destruct (smap _ pi bs) as [bs' pi']. cbn [fst flat_map] in *. destruct Hbs as [H1 H2].
@@ -156,13 +401,6 @@ Proof.
   - intros i bs bs' l H1 H2. cbn [erase_stmt]. rewrite (erase_bodies_eq bs bs' H1 H2). reflexivity.
 Qed.
 
-Lemma erase_insert_regs d ks : forall st, erase (fst (fold_left (insert_step d) ks st)) = erase (fst st).
-Proof.
-  induction ks as [|k ks IH]; intros st; cbn [fold_left]; [reflexivity|].
-  rewrite IH. unfold insert_step. destruct (dict_get d k); [|reflexivity].
-  cbn [fst]. unfold erase. apply fm_insert_nil. reflexivity.
-Qed.
-
 Lemma erase_fix : forall b pl, erase (fix_locs pl b) = erase b.
 Proof.
   intros b.
@@ -185,28 +423,26 @@ Proof.
   - intros n [l|] pl; reflexivity.
 Qed.
 
-Theorem erase_profile_ast_tree full imports d body :
-  erase (profile_ast_tree full imports d body) = erase body.
+(* the three stages of the pipeline, with the first one in interleaved form *)
+Definition stage1 (c : cfg) (body : list stmt) : list stmt :=
+  expand (dict_names (select (c_sel c) (pre c body))) 0 (pre c body).
+
+Definition stage2 (c : cfg) (body : list stmt) : list stmt :=
+  if c_full c
+  then fst (visit_body (c_imports c) (snd (insert_regs (select (c_sel c) (pre c body)) (pre c body)))
+                       (stage1 c body))
+  else stage1 c body.
+
+Lemma transform_stages c body : transform c body = fix_locs 1 (stage2 c body).
 Proof.
-  unfold profile_ast_tree. rewrite erase_fix. unfold insert_regs.
-  destruct full.
-  - rewrite erase_visit. apply (erase_insert_regs d _ (body, [])).
-  - apply (erase_insert_regs d _ (body, [])).
+  unfold transform, profile_ast_tree, stage2, stage1.
+  rewrite (insert_regs_expand _ _ (select_keys_nodup (c_sel c) (pre c body))). reflexivity.
 Qed.
 
-Lemma transform_ok c body t' :
-  transform c body = Ok t' ->
-  exists d, select (c_sel c) (pre c body) = Ok d
-            /\ t' = profile_ast_tree (c_full c) (c_imports c) d (pre c body).
+Theorem erase_transform c body : erase (transform c body) = erase (pre c body).
 Proof.
-  unfold transform. destruct (select (c_sel c) (pre c body)) as [d|e]; [|discriminate].
-  intros H. inversion H. exists d. split; reflexivity.
-Qed.
-
-Theorem erase_transform c body t' :
-  transform c body = Ok t' -> erase t' = erase (pre c body).
-Proof.
-  intros H. apply transform_ok in H as [d [_ ->]]. apply erase_profile_ast_tree.
+  rewrite transform_stages, erase_fix. unfold stage2.
+  destruct (c_full c); [rewrite erase_visit|]; unfold stage1, erase; apply expand_fm; reflexivity.
 Qed.
 
 (* on a program without `profile` decorators / registration calls erase is the identity *)
@@ -241,25 +477,9 @@ Proof.
   - intros n loc H. discriminate.
 Qed.
 
-Theorem erase_transform_clean c body t' :
-  transform c body = Ok t' -> clean (pre c body) = true -> erase t' = pre c body.
-Proof.
-  intros H Hc. rewrite (erase_transform c body t' H). apply erase_clean. exact Hc.
-Qed.
-
-(* the rewrite is defined unless a top-level `from . import x` (module None) makes the
-   extractor raise *)
-Theorem transform_total c body :
-  no_bare_relative (pre c body) = true -> exists t', transform c body = Ok t'.
-Proof.
-  intros H. unfold transform. rewrite select_eq by exact H. eexists. reflexivity.
-Qed.
-
-Theorem transform_bare_relative c body :
-  no_bare_relative (pre c body) = false -> transform c body = Err TypeError.
-Proof.
-  intros H. unfold transform, select, get_imports. rewrite get_imports_from_bare by exact H. reflexivity.
-Qed.
+Theorem erase_transform_clean c body :
+  clean (pre c body) = true -> erase (transform c body) = pre c body.
+Proof. intros Hc. rewrite erase_transform. apply erase_clean. exact Hc. Qed.
 
 (* ---- function headers ---------------------------------------------------------------- *)
 Lemma funcs_bodies_eq (g h : stmt -> list fhead) (bs bs' : list (Z * list stmt)) :
@@ -289,13 +509,6 @@ Proof.
     rewrite map_flat_map. apply flat_map_ext. intros p. unfold deco_funcs_stmt. rewrite map_flat_map. reflexivity.
 Qed.
 
-Lemma funcs_insert_regs d ks : forall st, funcs (fst (fold_left (insert_step d) ks st)) = funcs (fst st).
-Proof.
-  induction ks as [|k ks IH]; intros st; cbn [fold_left]; [reflexivity|].
-  rewrite IH. unfold insert_step. destruct (dict_get d k); [|reflexivity].
-  cbn [fst]. unfold funcs. apply fm_insert_nil. reflexivity.
-Qed.
-
 Lemma funcs_fix : forall b pl, funcs (fix_locs pl b) = funcs b.
 Proof.
   intros b.
@@ -318,20 +531,11 @@ Proof.
   - intros n [l|] pl; reflexivity.
 Qed.
 
-Theorem funcs_profile_ast_tree full imports d body :
-  funcs (profile_ast_tree full imports d body)
-  = if full then map deco_once (funcs body) else funcs body.
+Theorem funcs_transform c body :
+  funcs (transform c body) = if c_full c then map deco_once (funcs (pre c body)) else funcs (pre c body).
 Proof.
-  unfold profile_ast_tree. rewrite funcs_fix. unfold insert_regs. destruct full.
-  - rewrite funcs_visit. f_equal. apply (funcs_insert_regs d _ (body, [])).
-  - apply (funcs_insert_regs d _ (body, [])).
-Qed.
-
-Theorem funcs_transform c body t' :
-  transform c body = Ok t' ->
-  funcs t' = if c_full c then map deco_once (funcs (pre c body)) else funcs (pre c body).
-Proof.
-  intros H. apply transform_ok in H as [d [_ ->]]. apply funcs_profile_ast_tree.
+  rewrite transform_stages, funcs_fix. unfold stage2.
+  destruct (c_full c); [rewrite funcs_visit; f_equal|]; unfold stage1, funcs; apply expand_fm; reflexivity.
 Qed.
 
 (* every function of a clean program has no `profile` decorator ... *)
@@ -380,34 +584,23 @@ Proof.
   unfold has_profile. rewrite existsb_app. cbn. apply orb_true_r.
 Qed.
 
-Theorem whole_script_once_innermost c body t' :
-  c_full c = true -> clean (pre c body) = true -> transform c body = Ok t' ->
-  forall f, In f (funcs t') -> once_innermost f = true.
+Theorem whole_script_once_innermost c body :
+  c_full c = true -> clean (pre c body) = true ->
+  forall f, In f (funcs (transform c body)) -> once_innermost f = true.
 Proof.
-  intros Hf Hc H f Hin. rewrite (funcs_transform c body t' H), Hf in Hin.
+  intros Hf Hc f Hin. rewrite funcs_transform, Hf in Hin.
   apply in_map_iff in Hin as [f0 [<- Hin]]. apply once_innermost_deco_once.
   apply (funcs_clean (pre c body) Hc f0 Hin).
 Qed.
 
-Theorem whole_script_all_profiled c body t' :
-  c_full c = true -> transform c body = Ok t' ->
-  forall f, In f (funcs t') -> has_profile (fh_decos f) = true.
+Theorem whole_script_all_profiled c body :
+  c_full c = true -> forall f, In f (funcs (transform c body)) -> has_profile (fh_decos f) = true.
 Proof.
-  intros Hf H f Hin. rewrite (funcs_transform c body t' H), Hf in Hin.
+  intros Hf f Hin. rewrite funcs_transform, Hf in Hin.
   apply in_map_iff in Hin as [f0 [<- _]]. apply has_profile_deco_once.
 Qed.
 
 (* ---- line numbers ---------------------------------------------------------------------- *)
-Lemma lines_bodies_eq (bs : list (Z * list stmt)) (F : Z * list stmt -> Z * list stmt) :
-  (forall p, In p bs -> fst (F p) = fst p /\ flat_map lines_stmt (snd (F p)) = flat_map lines_stmt (snd p)) ->
-  flat_map (fun p => fst p :: flat_map lines_stmt (snd p)) (map F bs)
-  = flat_map (fun p => fst p :: flat_map lines_stmt (snd p)) bs.
-Proof.
-  induction bs as [|p bs IH]; intros H; cbn [map flat_map]; [reflexivity|].
-  destruct (H p (or_introl eq_refl)) as [H1 H2]. rewrite H1, H2, IH; [reflexivity|].
-  intros q Hq. apply H. right. exact Hq.
-Qed.
-
 Lemma lines_erase : forall b, lines (erase b) = lines b.
 Proof.
   intros b.
@@ -453,66 +646,13 @@ Proof.
   - reflexivity.
 Qed.
 
-Theorem lines_transform c body t' : transform c body = Ok t' -> lines t' = lines body.
+Theorem lines_transform c body : lines (transform c body) = lines body.
 Proof.
-  intros H. rewrite <- (lines_erase t'), (erase_transform c body t' H), lines_erase.
+  rewrite <- (lines_erase (transform c body)), erase_transform, lines_erase.
   unfold pre. destruct (c_module c); [apply lines_abs|reflexivity].
 Qed.
 
 (* ---- names handed to registration calls ------------------------------------------------ *)
-Lemma insert_desc_in k l x : In x (insert_desc k l) <-> x = k \/ In x l.
-Proof.
-  induction l as [|y l IH]; cbn [insert_desc In]; [intuition|].
-  destruct (y <? k); cbn [In]; [intuition|]. rewrite IH. intuition.
-Qed.
-
-Lemma sort_desc_in l x : In x (sort_desc l) <-> In x l.
-Proof.
-  induction l as [|y l IH]; cbn [sort_desc fold_right In]; [tauto|].
-  change (fold_right insert_desc [] l) with (sort_desc l). rewrite insert_desc_in, IH. intuition.
-Qed.
-
-Lemma regs_insert_in i x l y : In y (regs (insert_at i x l)) <-> In y (regs_stmt x) \/ In y (regs l).
-Proof. apply fm_insert_in. Qed.
-
-Lemma regs_insert_regs d ks : forall st y,
-  In y (regs (fst (fold_left (insert_step d) ks st)))
-  <-> (exists k, In k ks /\ dict_get d k = Some y) \/ In y (regs (fst st)).
-Proof.
-  induction ks as [|k ks IH]; intros st y; cbn [fold_left].
-  - split; [auto|]. intros [[k [[] _]]|H]; exact H.
-  - rewrite IH. unfold insert_step. destruct (dict_get d k) as [n|] eqn:E; cbn [fst].
-    + rewrite regs_insert_in. cbn [regs_stmt In]. split.
-      * intros [[k' [Hk Hg]]|[[<-|[]]|H]].
-        -- left. exists k'. split; [right; exact Hk|exact Hg].
-        -- left. exists k. split; [left; reflexivity|exact E].
-        -- right. exact H.
-      * intros [[k' [[<-|Hk] Hg]]|H].
-        -- right. left. left. congruence.
-        -- left. exists k'. split; assumption.
-        -- right. right. exact H.
-    + split.
-      * intros [[k' [Hk Hg]]|H]; [left; exists k'; split; [right; exact Hk|exact Hg]|right; exact H].
-      * intros [[k' [[<-|Hk] Hg]]|H]; [congruence|left; exists k'; split; assumption|right; exact H].
-Qed.
-
-Lemma dict_get_in d k y : dict_get d k = Some y -> In (k, y) d.
-Proof.
-  induction d as [|[k' v] r IH]; cbn [dict_get In]; [discriminate|].
-  destruct (Z.eqb_spec k' k) as [->|Hne]; [intros H; inversion H; left; reflexivity|].
-  intros H. right. apply IH. exact H.
-Qed.
-
-Lemma dict_in_get d k y : NoDup (map fst d) -> In (k, y) d -> dict_get d k = Some y.
-Proof.
-  induction d as [|[k' v] r IH]; cbn [dict_get In map fst]; [tauto|].
-  intros Hnd [H|H].
-  - inversion H; subst. rewrite Z.eqb_refl. reflexivity.
-  - inversion Hnd as [|? ? Hk Hr]; subst. destruct (Z.eqb_spec k' k) as [->|Hne].
-    + exfalso. apply Hk. apply in_map_iff. exists (k, y). split; [reflexivity|exact H].
-    + apply IH; assumption.
-Qed.
-
 Lemma regs_fix : forall b pl, regs (fix_locs pl b) = regs b.
 Proof.
   intros b.
@@ -571,28 +711,71 @@ Proof.
   - reflexivity.
 Qed.
 
+(* every binding sits at an index of the body, on an import statement that is neither a
+   __future__ import nor a bare relative one *)
+Definition profilable_import (s : stmt) : Prop :=
+  match s with
+  | Import _ _ => True
+  | ImportFrom (Some m) _ _ _ => future_module m = false
+  | _ => False
+  end.
+
+Lemma all_bindings_from_at body : forall i m,
+  In m (all_bindings_from i body) ->
+  i <= i_idx m < i + Z.of_nat (length body)
+  /\ exists s, nth_error body (Z.to_nat (i_idx m - i)) = Some s /\ profilable_import s.
+Proof.
+  induction body as [|s r IH]; intros i m Hin; [destruct Hin|].
+  cbn [all_bindings_from] in Hin. apply in_app_iff in Hin as [Hin|Hin].
+  - assert (Hidx : i_idx m = i /\ profilable_import s).
+    { destruct s as [a n ds b l|n i0 b l|ns l|md ns lv l|i0 bs l|i0 l|n loc]; cbn [binds_of_stmt] in Hin;
+        try (destruct Hin; fail).
+      - apply in_map_iff in Hin as [a [<- _]]. split; [reflexivity|exact I].
+      - destruct md as [md|]; [|destruct Hin]. destruct (future_module md) eqn:Ef; [destruct Hin|].
+        apply in_map_iff in Hin as [a [<- _]]. split; [reflexivity|exact Ef]. }
+    destruct Hidx as [-> Hp]. split; [cbn [length]; lia|].
+    exists s. rewrite Z.sub_diag. split; [reflexivity|exact Hp].
+  - destruct (IH (i + 1) m Hin) as [Hr [s0 [Hn Hp]]]. split; [cbn [length]; lia|].
+    exists s0. split; [|exact Hp].
+    replace (Z.to_nat (i_idx m - i)) with (S (Z.to_nat (i_idx m - (i + 1)))) by lia. exact Hn.
+Qed.
+
+Lemma wanted_at S body k y :
+  In (k, y) (wanted S body) ->
+  0 <= k < Z.of_nat (length body)
+  /\ exists s, nth_error body (Z.to_nat k) = Some s /\ profilable_import s.
+Proof.
+  unfold wanted. intros H. apply in_map_iff in H as [m [E Hm]]. apply filter_In in Hm as [Hm _].
+  apply in_first_by_name in Hm. destruct (all_bindings_from_at body 0 m Hm) as [Hr [s [Hn Hp]]].
+  inversion E; subst. split; [lia|]. exists s. rewrite Z.sub_0_r in Hn. split; assumption.
+Qed.
+
+Lemma select_names_at S body k y :
+  In y (dict_names (select S body) k) ->
+  0 <= k < Z.of_nat (length body)
+  /\ exists s, nth_error body (Z.to_nat k) = Some s /\ profilable_import s.
+Proof.
+  intros H. apply dict_names_items in H. apply selection_exact in H. apply (wanted_at S body k y H).
+Qed.
+
 (* exactly the selected names are handed to registration calls (unless --prof-imports
    together with the whole script asks for all imports) *)
-Theorem regs_transform c body t' d :
-  transform c body = Ok t' -> select (c_sel c) (pre c body) = Ok d ->
+Theorem regs_transform c body :
   c_full c = false \/ c_imports c = false ->
-  forall y, In y (regs t') <-> In y (map snd d) \/ In y (regs (pre c body)).
+  forall y, In y (regs (transform c body))
+            <-> In y (map snd (wanted (c_sel c) (pre c body))) \/ In y (regs (pre c body)).
 Proof.
-  intros H Hd Hcfg y. apply transform_ok in H as [d' [Hd' ->]].
-  rewrite Hd in Hd'. inversion Hd'; subst d'. clear Hd'.
-  assert (Hnd : NoDup (map fst d)).
-  { unfold select in Hd. destruct (get_imports (pre c body)); [|discriminate].
-    inversion Hd. apply find_modnames_keys_nodup. }
-  assert (Hins : In y (regs (fst (insert_regs d (pre c body))))
-                 <-> In y (map snd d) \/ In y (regs (pre c body))).
-  { unfold insert_regs. rewrite regs_insert_regs. cbn [fst]. split.
-    - intros [[k [Hk Hg]]|Hr]; [left|right; exact Hr].
-      apply dict_get_in in Hg. apply in_map_iff. exists (k, y). split; [reflexivity|exact Hg].
+  intros Hcfg y. rewrite transform_stages, regs_fix.
+  assert (H1 : In y (regs (stage1 c body))
+               <-> In y (map snd (wanted (c_sel c) (pre c body))) \/ In y (regs (pre c body))).
+  { unfold stage1. rewrite regs_expand. split.
+    - intros [[j [_ Hy]]|Hr]; [left|right; exact Hr].
+      apply dict_names_items in Hy. apply selection_exact in Hy.
+      apply in_map_iff. exists (j, y). split; [reflexivity|exact Hy].
     - intros [Hm|Hr]; [left|right; exact Hr].
       apply in_map_iff in Hm as [[k v] [E Hin]]. cbn [snd] in E. subst v. exists k. split.
-      + apply sort_desc_in. apply in_map_iff. exists (k, y). split; [reflexivity|exact Hin].
-      + apply dict_in_get; assumption. }
-  unfold profile_ast_tree. rewrite regs_fix.
-  destruct (c_full c) eqn:Ef; [|exact Hins].
-  destruct Hcfg as [Hf|Hi]; [discriminate|]. rewrite Hi, regs_visit_noimports. exact Hins.
+      + destruct (wanted_at _ _ _ _ Hin) as [Hr _]. lia.
+      + apply dict_items_names; [apply select_keys_nodup|]. apply selection_exact. exact Hin. }
+  unfold stage2. destruct (c_full c) eqn:Ef; [|exact H1].
+  destruct Hcfg as [Hf|Hi]; [discriminate|]. rewrite Hi, regs_visit_noimports. exact H1.
 Qed.
